@@ -131,6 +131,15 @@ impl Id {
                 debug!("ignoring {name} which is no ID while listing {tpe}: {err}");
             })
             .ok()
+            // Files are only written with lowercase hex names. Other spellings of an ID (which the
+            // parser accepts) belong to foreign files which could not be accessed using the ID.
+            .filter(|id: &Self| {
+                let canonical = id.to_hex().as_str() == name;
+                if !canonical {
+                    debug!("ignoring {name} which is no canonical ID while listing {tpe}");
+                }
+                canonical
+            })
     }
 
     /// Generate a random `Id`.
